@@ -2,6 +2,8 @@
 //! of regress's Pattern-trait searcher and of std's provided methods, checked
 //! against the std Searcher tiling contract and against find_iter (C20).
 #![feature(pattern)]
+#![feature(specialization)]
+#![allow(incomplete_features)]
 
 use regress::Regex;
 use simcore::driver;
@@ -15,6 +17,22 @@ use std::io::Write;
 use std::panic::{catch_unwind, AssertUnwindSafe};
 use std::str::pattern::{Pattern, ReverseSearcher, SearchStep, Searcher};
 use std::time::Instant;
+
+/// `Clone` if the searcher type happens to implement it (std's Split / Matches iterators are
+/// Clone exactly when the searcher is), otherwise nothing. Needs nightly specialization.
+trait TryClone: Sized {
+    fn try_clone(&self) -> Option<Self>;
+}
+impl<T> TryClone for T {
+    default fn try_clone(&self) -> Option<Self> {
+        None
+    }
+}
+impl<T: Clone> TryClone for T {
+    fn try_clone(&self) -> Option<Self> {
+        Some(self.clone())
+    }
+}
 
 // ------------------------------------------------------------------ reference searcher
 //
@@ -113,6 +131,15 @@ macro_rules! consume {
             "match_indices" => format!("{:?}", h.match_indices($p).collect::<Vec<_>>()),
             "split" => format!("{:?}", h.split($p).collect::<Vec<_>>()),
             "splitn" => format!("{:?}", h.splitn(2, $p).collect::<Vec<_>>()),
+            "splitn3" => format!("{:?}", h.splitn(3, $p).collect::<Vec<_>>()),
+            "splitn1" => format!("{:?}", h.splitn(1, $p).collect::<Vec<_>>()),
+            "rsplitn3" => format!("{:?}", h.rsplitn(3, $p).collect::<Vec<_>>()),
+            "replacen2" => format!("{:?}", h.replacen($p, "<>", 2)),
+            "replacen0" => format!("{:?}", h.replacen($p, "<>", 0)),
+            "split_skip" => format!("{:?}", h.split($p).skip(1).step_by(2).collect::<Vec<_>>()),
+            "matches_nth" => format!("{:?}", h.matches($p).nth(1)),
+            "rmatches_last" => format!("{:?}", h.rmatches($p).last()),
+            "split_count" => format!("{:?}", h.split($p).count()),
             "split_terminator" => format!("{:?}", h.split_terminator($p).collect::<Vec<_>>()),
             "split_inclusive" => format!("{:?}", h.split_inclusive($p).collect::<Vec<_>>()),
             "split_once" => format!("{:?}", h.split_once($p)),
@@ -150,6 +177,10 @@ enum SOp {
     /// step a SECOND live searcher on the same &Regex over another haystack
     Next2,
     NextBack2,
+    /// continue with a clone of the searcher (if the searcher type is Clone): the stream must go on unchanged
+    CloneSwap,
+    /// call Searcher::haystack()
+    Haystack,
     Consumer(String),
 }
 
@@ -165,6 +196,8 @@ impl SOp {
             SOp::Rebuild => "rebuild".into(),
             SOp::Next2 => "next@2".into(),
             SOp::NextBack2 => "next_back@2".into(),
+            SOp::CloneSwap => "clone_swap".into(),
+            SOp::Haystack => "haystack".into(),
             SOp::Consumer(c) => format!("std:{}", c),
         }
     }
@@ -179,6 +212,8 @@ impl SOp {
             "rebuild" => SOp::Rebuild,
             "next@2" => SOp::Next2,
             "next_back@2" => SOp::NextBack2,
+            "clone_swap" => SOp::CloneSwap,
+            "haystack" => SOp::Haystack,
             _ => return s.strip_prefix("std:").map(|c| SOp::Consumer(c.to_string())),
         })
     }
@@ -187,6 +222,7 @@ impl SOp {
 const CONSUMERS: &[&str] = &[
     "find", "contains", "matches", "match_indices", "split", "splitn", "split_terminator", "split_inclusive", "replace", "replacen", "starts_with", "strip_prefix", "trim_start_matches",
     "rfind", "rmatches", "rmatch_indices", "rsplit", "rsplitn", "rsplit_terminator", "ends_with", "strip_suffix", "trim_end_matches", "split_once", "rsplit_once",
+    "splitn3", "splitn1", "rsplitn3", "replacen2", "replacen0", "split_skip", "matches_nth", "rmatches_last", "split_count",
 ];
 
 #[derive(Clone, Debug, PartialEq)]
@@ -295,7 +331,7 @@ fn gen_sworld(base: u64, run: u64) -> SWorld {
     };
     // a second haystack for a sibling searcher on the same &Regex
     let n2 = wl.below(12);
-    let hay2: String = (0..n2).map(|_| alpha[wl.usize_below(alpha.len())]).collect();
+    let hay2: String = if wl.chance(1, 3) { hay.clone() } else { (0..n2).map(|_| alpha[wl.usize_below(alpha.len())]).collect() };
     // script: the seeded interleaving of the two ends and of the provided methods
     let style = sc.below(10);
     let max_calls = 4 * hay.len() as u64 + 12;
@@ -329,11 +365,17 @@ fn gen_sworld(base: u64, run: u64) -> SWorld {
                     SOp::NextRejectBack
                 } else if r < 92 {
                     SOp::Rebuild
-                } else if r < 95 {
+                } else if r < 94 {
                     if r % 2 == 0 {
                         SOp::Next2
                     } else {
                         SOp::NextBack2
+                    }
+                } else if r < 95 {
+                    if sc.chance(1, 2) {
+                        SOp::CloneSwap
+                    } else {
+                        SOp::Haystack
                     }
                 } else {
                     SOp::Consumer(CONSUMERS[sc.usize_below(CONSUMERS.len())].to_string())
@@ -466,6 +508,7 @@ struct SExec {
     rebuilds: usize,
     sibling_steps: usize,
     big_worlds: usize,
+    clone_swaps: usize,
     sim_steps: u64,
     outcome_hash: u64,
 }
@@ -764,6 +807,7 @@ fn exec_sworld(w: &SWorld) -> SExec {
         rebuilds: 0,
         sibling_steps: 0,
         big_worlds: 0,
+        clone_swaps: 0,
         sim_steps: 0,
         outcome_hash: 0,
     };
@@ -821,6 +865,8 @@ fn exec_sworld(w: &SWorld) -> SExec {
         for (i, op) in w.script.iter().enumerate() {
             let mut obs: Option<(bool, Obs)> = None;
             let mut obs2: Option<(bool, Obs)> = None;
+            let mut cloned = false;
+            let mut hay_ok = true;
             let mut cons: Option<Option<(String, String)>> = None;
             let res = armed(ctx, &mut || match op {
                 SOp::Next => obs = Some((true, step_to_obs(searcher.next()))),
@@ -850,6 +896,15 @@ fn exec_sworld(w: &SWorld) -> SExec {
                     }))
                 }
                 SOp::Rebuild => {}
+                SOp::CloneSwap => {
+                    if let Some(c) = searcher.try_clone() {
+                        searcher = c;
+                        cloned = true;
+                    }
+                }
+                SOp::Haystack => {
+                    hay_ok = searcher.haystack() == h && searcher.haystack().as_ptr() == h.as_ptr();
+                }
                 SOp::Next2 => obs2 = Some((true, step_to_obs(searcher2.next()))),
                 SOp::NextBack2 => obs2 = Some((false, step_to_obs(searcher2.next_back()))),
                 SOp::Consumer(c) => cons = Some(run_consumer(c, &re, h, &f)),
@@ -861,6 +916,12 @@ fn exec_sworld(w: &SWorld) -> SExec {
                     return Ok(());
                 }
                 Ok(()) => {}
+            }
+            if cloned {
+                ex.clone_swaps += 1;
+            }
+            if !hay_ok {
+                ex.viols.push(SViol { clause: "S-haystack-accessor".into(), detail: "Searcher::haystack() does not return the haystack".into(), op: i });
             }
             if let SOp::Rebuild = op {
                 // restart fault: a searcher has no resumable cursor; a rebuilt one replays from scratch
@@ -1108,6 +1169,7 @@ fn cmd_worker(args: &[String]) -> i32 {
         st.add("faults.rebuild", e.rebuilds as u64);
         st.add("faults.sibling_searcher_steps", e.sibling_steps as u64);
         st.add("probes.big_haystack_world_conclusive", e.big_worlds as u64);
+        st.add("faults.searcher_clone_swaps", e.clone_swaps as u64);
         st.add("compile_errors", e.compile_err as u64);
         st.add("ops.forward_steps", e.steps_fwd as u64);
         st.add("ops.backward_steps", e.steps_bwd as u64);
